@@ -83,7 +83,7 @@ BVARS = {'int': ['i1', 'i2'], 'unsigned': ['u1', 'u2'], 'long': ['l1', 'l2'], 'u
 BLITS = {
     'int': ['1', '-1', '2', '-7', '3', '10', '255', '-1000', '2147483647', '(-2147483647-1)'],
     'unsigned': ['1u', '2u', '7u', '16u', '1000u', '4294967295u'],
-    'long': ['1L', '-1L', '5L', '-12L', '4294967296L', '-4294967297L', '9223372036854775807L', '(-9223372036854775807L-1)'],
+    'long': ['1L', '-1L', '5L', '-12L', '4294967296L', '-4294967297L', '9223372036854775807L', '-9223372036854775807L'],
     'ulong': ['1UL', '3UL', '64UL', '4294967296UL', '9223372036854775808UL', '18446744073709551615UL'],
 }
 DLIT_INT = [1.0, -1.0, 2.0, 3.0, -12.0, 1024.0, 9007199254740992.0, -9007199254740991.0, 1e20, -4294967296.0]
@@ -100,6 +100,7 @@ RELS = ['==', '!=', '<', '<=', '>', '>=']
 # "Suspected findings"); every exclusion is counted.  CXXGEN_INCLUDE_FINDINGS=1 generates them anyway.
 EXCLUDED = {'mpq_shift_in_place': 0, 'mpf_assign_rvalue_other_precision': 0}
 INCLUDE_FINDINGS = os.environ.get('CXXGEN_INCLUDE_FINDINGS') == '1'
+if INCLUDE_FINDINGS: BLITS['long'].append('(-9223372036854775807L-1)')
 
 
 class N:
@@ -301,9 +302,10 @@ class Emit:
             else: ops.append(s.operand(cls, k, P))
         x, y = ops
         if op in ('/', '%'): s.L.append('if (%s(%s) == 0) return rt::SKIP_DIV0;' % (SGN[cls], y))
-        if op in ('/', '%') and cls == 'Z' and a.cls == 'B' and a.bt == 'long' and not INCLUDE_FINDINGS:
-            # suspected finding long_min_div_minus_one: LONG_MIN / mpz_class(-1) raises SIGFPE in mpirxx.h
-            s.L.append('if ((%s) == LONG_MIN && mpz_cmp_si(%s, -1) == 0) return rt::SKIP_FINDING;' % (a.txt, y))
+        for k in (a, b):
+            if k.cls == 'B' and k.k == 'b' and k.bt == 'long' and not INCLUDE_FINDINGS:
+                # suspected findings long_min_negation_ub / long_min_div_minus_one: mpirxx.h negates the long operand
+                s.L.append('if ((%s) == LONG_MIN) return rt::SKIP_FINDING;' % k.txt)
         t = s.tmp(cls, P)
         s.L.append('%s(%s, %s, %s);' % (CFUN[(cls, op)], t, x, y))
         for i, v in enumerate(bv):   # mpf with a built-in integer: skip tuples where the two C routes differ
